@@ -131,10 +131,8 @@ Fixpoint signers_loop (fuel : nat) (s : bytes) : outcome (list signer) :=
   | S f => '(si, rest) <- parse_signer s ;; l <- signers_loop f rest ;; Ret (si :: l)
   end.
 
-(* ParsePKCS7 *)
-Definition parse_pkcs7 (b : bytes) : outcome pkcs7 :=
-  hci <- has_content_info b ;;
-  ci <- (if (hci : bool) then bind (parse_content_info b) (fun x => Ret (snd (fst x))) else Ret b) ;;
+(* ParsePKCS7, from the SignedData SEQUENCE on *)
+Definition parse_signed_data (ci : bytes) : outcome pkcs7 :=
   '(sd, _) <- E 40 (read_asn1 T_SEQUENCE ci) ;;
   '(_, sd1) <- E 41 (read_int64 sd) ;;
   '(dig, sd2) <- E 42 (read_asn1 T_SET sd1) ;;
@@ -146,6 +144,12 @@ Definition parse_pkcs7 (b : bytes) : outcome pkcs7 :=
   '(sis, _) <- E 45 (read_asn1 T_SET sd4) ;;
   l <- signers_loop (length sis) sis ;;
   Ret (mkP7 o content raw alg l).
+
+(* ParsePKCS7: an outer ContentInfo is unwrapped when there is one *)
+Definition parse_pkcs7 (b : bytes) : outcome pkcs7 :=
+  hci <- has_content_info b ;;
+  ci <- (if (hci : bool) then bind (parse_content_info b) (fun x => Ret (snd (fst x))) else Ret b) ;;
+  parse_signed_data ci.
 
 (* signerinfo.isCertificate *)
 Definition names (si : signer) (c : cert) : bool :=
@@ -213,28 +217,31 @@ Definition attrs_body (ctype : list N) (time : option bytes) (md : bytes) (other
   flat_map (fun ov => attr (fst ov) (snd ov)) others.
 Definition attrs_marshal ctype time md others : bytes := der_set (attrs_body ctype time md others).
 
-(* SignPKCS7's output, given the signature the signer returned for
-   SHA-256(attrs_marshal ...) *)
-Definition sign_pkcs7 (cert_raw issuer_raw : bytes) (serial : N) (oid : list N) (content : bytes)
+(* the SignedData SEQUENCE SignPKCS7 builds, given the signature the signer
+   returned for SHA-256(attrs_marshal ...) *)
+Definition signed_data (cert_raw issuer_raw : bytes) (serial : N) (oid : list N) (content : bytes)
            (time : bytes) (sig : bytes) : bytes :=
   let body := attrs_body oid (Some time) (sha256 content) [] in
   let embedded := negb (is_nilb content) && negb (oid_eqb oid OID_data) in
   der_seq (
-    der_oid OID_signedData ++
-    add_asn1 T_CTX0 (
+    der_int 1 ++
+    der_set (alg_id OID_sha256) ++
+    der_seq (der_oid oid ++ (if embedded then add_asn1 T_CTX0 (der_seq content) else [])) ++
+    add_asn1 T_CTX0 cert_raw ++
+    der_set (
       der_seq (
         der_int 1 ++
-        der_set (alg_id OID_sha256) ++
-        der_seq (der_oid oid ++ (if embedded then add_asn1 T_CTX0 (der_seq content) else [])) ++
-        add_asn1 T_CTX0 cert_raw ++
-        der_set (
-          der_seq (
-            der_int 1 ++
-            der_seq (issuer_raw ++ der_int serial) ++
-            alg_id OID_sha256 ++
-            add_asn1 T_CTX0 body ++
-            alg_id OID_rsa ++
-            der_octets sig))))).
+        der_seq (issuer_raw ++ der_int serial) ++
+        alg_id OID_sha256 ++
+        add_asn1 T_CTX0 body ++
+        alg_id OID_rsa ++
+        der_octets sig))).
+
+(* SignPKCS7's output: the SignedData wrapped in a ContentInfo *)
+Definition sign_pkcs7 (cert_raw issuer_raw : bytes) (serial : N) (oid : list N) (content : bytes)
+           (time : bytes) (sig : bytes) : bytes :=
+  der_seq (der_oid OID_signedData ++
+           add_asn1 T_CTX0 (signed_data cert_raw issuer_raw serial oid content time sig)).
 
 (* what the signer is asked to sign *)
 Definition sign_pkcs7_tbs (oid : list N) (content : bytes) (time : bytes) : bytes :=
